@@ -531,6 +531,11 @@ func (env *Env) binary(x *ast.BinaryExpr) TV {
 		return v.T
 	}
 	at, bt := fix(a, b.Ty), fix(b, a.Ty)
+	if (x.Op == token.EQL || x.Op == token.NEQ) && !isUntypedNil(a.Ty) && !isUntypedNil(b.Ty) && !isUntyped(a.Ty) && !isUntyped(b.Ty) {
+		if sa, sb := env.vc.sorts.sortOf(a.Ty), env.vc.sorts.sortOf(b.Ty); sa != sb {
+			sfail("mismatched operand types in comparison: %v vs %v", a.Ty, b.Ty)
+		}
+	}
 	switch x.Op {
 	case token.EQL:
 		return TV{eq(at, bt), tBool}
